@@ -12,3 +12,22 @@ Print Assumptions C18_split.
 Theorem C18_round_trip : forall t p, side t p -> combined_split t (combined_name t p) = (ns_opt p, p_name p).
 Proof. apply C18_round. Qed.
 Print Assumptions C18_round_trip.
+(* builder_with_combined_name(t, s).build(): the outcome as a function of the split pieces - the type's rule decides, nothing else does *)
+Theorem C18_combined_build : forall t s,
+  let p := comb_parts t s in
+  build cfg P t p =
+  match t with
+  | Maven => if maven_ns_missing cfg (p_ns p) then Err (PMissing FNamespace)
+             else if is_empty (p_name p) then Err (PParse (EMissing FName)) else Ok (t, p)
+  | NuGet => if is_empty (lowercase_str cfg (p_name p)) then Err (PParse (EMissing FName)) else Ok (t, with_name p (lowercase_str cfg (p_name p)))
+  | PyPI => if is_empty (fix_pypi_name cfg (p_name p)) then Err (PParse (EMissing FName)) else Ok (t, with_name p (fix_pypi_name cfg (p_name p)))
+  | _ => if is_empty (p_name p) then Err (PParse (EMissing FName)) else Ok (t, p)
+  end.
+Proof. exact (C18_combined_build_spec cfg). Qed.
+Print Assumptions C18_combined_build.
+(* non-vacuity: both branches of the Maven rule occur *)
+Example C18_combined_build_ex1 : build cfg P Maven (comb_parts Maven ["g";":";"a"]%byte) =
+  Ok (Maven, {| p_ns := ["g"]%byte; p_name := ["a"]%byte; p_ver := []; p_quals := []; p_sub := [] |}).
+Proof. vm_compute. reflexivity. Qed.
+Example C18_combined_build_ex2 : build cfg P Maven (comb_parts Maven ["/";":";"a"]%byte) = Err (PMissing FNamespace).
+Proof. vm_compute. reflexivity. Qed.
